@@ -289,38 +289,7 @@ def check(pm: ProgramModel, ctx: Ctx) -> None:
     ctx.floor("C02", "obligations", len(ctx.obligations), 30)
 
 
-def _broken_variant(reader: str, content: Any) -> Any:
-    """The document with something at its end that the reader cannot represent: reading fails after most of the document
-    was processed (an unknown constraint type / rule tag / term, a relational constraint inside an AFM feature block)."""
-    import json as _json
-    text = content.decode("utf8") if isinstance(content, (bytes, bytearray)) else content
-    if reader in ("JSONReader", "GlencoeReader"):
-        try:
-            doc = _json.loads(text)
-        except (ValueError, TypeError):
-            return None
-        if reader == "JSONReader":
-            doc.setdefault("constraints", []).append({"name": "bogus", "expr": "x", "ast": {"type": "NoSuchOperator", "operands": []}})
-        else:
-            cons = doc.setdefault("constraints", {})
-            if isinstance(cons, dict):
-                cons["bogus"] = {"type": "NoSuchTerm", "operands": []}
-        return _json.dumps(doc)
-    if reader == "FeatureIDEReader":
-        if "</constraints>" in text:
-            out = text.replace("</constraints>", "<rule><nosuchtag><var>x</var></nosuchtag></rule></constraints>", 1)
-        else:
-            out = text.replace("</struct>", "</struct><constraints><rule><nosuchtag><var>x</var></nosuchtag></rule></constraints>", 1)
-        return out.encode("utf8") if isinstance(content, (bytes, bytearray)) else out
-    if reader == "AFMReader":
-        import re as _re
-        m = _re.search(r"^([A-Z][A-Za-z0-9]*)\s*:", text, _re.M)
-        if not m or "%Constraints" not in text:
-            return None
-        return text.rstrip("\n") + f"\n{m.group(1)} {{ {m.group(1)}.cost > 3; }}\n"
-    if reader == "UVLReader":
-        return text + "\n\t((broken\n"
-    return None
+from ..codec import broken_variant as _broken_variant  # noqa: E402
 
 
 def after_failure(pm: ProgramModel, ctx: Ctx, docs: dict[str, list[tuple[str, Any, Any]]]) -> None:
